@@ -56,7 +56,6 @@ class _TextCueParser:
     self.line_num: int = line_number
     self.parent: model.ContentElement = paragraph
     self.paragraph: model.P = paragraph
-
     # begin, relative to the paragraph, of the text that follows the last inline timestamp
     self.ts_offset = None
 
@@ -209,7 +208,8 @@ def parse_vtt_pct(value: str):
   """Parse a WebVTT precentage value"""
   m = _VTT_PCT_RE.fullmatch(value)
   if m:
-    return round(float(m.group(1)))
+    value = float(m.group(1))
+    return int(value) if value.is_integer() else value
   return None
 
 # integer has at most 20 digits
@@ -250,26 +250,15 @@ def _get_or_make_region(
     LOGGER.warning("Bad vertical setting value: %s", value)
 
 
-  # size
-
-  value = cue_settings.get("size")
-  if value is not None:
-    pct = parse_vtt_pct(value)
-    if pct is not None:
-      if writing_mode in (styles.WritingModeType.tblr, styles.WritingModeType.tbrl):
-        extent_height = pct
-      else:
-        extent_width = pct
-    else:
-      LOGGER.warning("Bad size setting value: %s", value)
+  vertical = writing_mode in (styles.WritingModeType.tblr, styles.WritingModeType.tbrl)
 
   # text align
 
   value = cue_settings.get("align")
   if value == "left":
-    text_align = styles.TextAlignType.end if writing_mode == styles.WritingModeType.rltb else styles.TextAlignType.start
+    text_align = styles.TextAlignType.start
   elif value == "right":
-    text_align = styles.TextAlignType.start if writing_mode == styles.WritingModeType.rltb else styles.TextAlignType.end
+    text_align = styles.TextAlignType.end
   elif value == "start":
     text_align = styles.TextAlignType.start
   elif value == "center":
@@ -279,92 +268,110 @@ def _get_or_make_region(
   elif value is not None:
     LOGGER.warning("Bad alignment setting value: %s", value)
 
-  # line
+  # inline axis (x for horizontal cues, y for vertical cues): position and size, see WebVTT 7.2
+
+  inline_origin = origin_y if vertical else origin_x
+  inline_extent = extent_height if vertical else extent_width
+
+  size = None
+  value = cue_settings.get("size")
+  if value is not None:
+    size = parse_vtt_pct(value)
+    if size is None or size > 100:
+      LOGGER.warning("Bad size setting value: %s", value)
+      size = None
+
+  position = None
+  position_align = None
+  value = cue_settings.get("position")
+  if value is not None:
+    value = value.split(",")
+    position = parse_vtt_pct(value[0])
+    if position is None or position > 100:
+      LOGGER.warning("Bad position setting value: %s", cue_settings.get("position"))
+      position = None
+    elif len(value) > 1:
+      if value[1] in ("center", "line-left", "line-right"):
+        position_align = value[1]
+      else:
+        LOGGER.warning("Bad position alignment setting value: %s", value[1])
+
+  if position is not None or size is not None:
+    if position_align is None:
+      position_align = {styles.TextAlignType.start: "line-left", styles.TextAlignType.end: "line-right"}.get(text_align, "center")
+    if position is None:
+      position = {"line-left": 0, "center": 50, "line-right": 100}[position_align]
+    if position_align == "line-left":
+      max_size = 100 - position
+    elif position_align == "line-right":
+      max_size = position
+    else:
+      max_size = 2 * min(position, 100 - position)
+    inline_extent = min(100 if size is None else size, max_size)
+    if position_align == "line-left":
+      inline_origin = position
+    elif position_align == "line-right":
+      inline_origin = position - inline_extent
+    else:
+      inline_origin = position - inline_extent / 2
+
+  # block axis (y for horizontal cues, x for vertical cues): line, measured from the top / left edge
+
+  block_origin = origin_x if vertical else origin_y
+  block_extent = extent_width if vertical else extent_height
+  rows = _DEFAULT_COLS if vertical else _DEFAULT_ROWS
+  # edge of the region the text is anchored to: start = top / left, end = bottom / right; line auto = last line
+  anchor = "start" if writing_mode == styles.WritingModeType.tbrl else "end"
 
   value = cue_settings.get("line")
   if value is not None:
     value = value.split(",")
     line_align = value[1] if len(value) > 1 else "start"
+    if line_align not in ("start", "center", "end"):
+      LOGGER.warning("Bad line alignment setting value: %s", line_align)
+      line_align = "start"
 
     line_offset = parse_vtt_pct(value[0])
-    if line_offset is None:
-      line_num = parse_vtt_int(value[0])
-      if line_num is not None:
-        if writing_mode in (styles.WritingModeType.rltb, styles.WritingModeType.lrtb):
-          line_offset = 100 * line_num/_DEFAULT_ROWS if line_num > 0 else 100 - 100 * line_num/_DEFAULT_ROWS
-        else:
-          line_offset = 100 * line_num/_DEFAULT_COLS if line_num > 0 else 100 - 100 * line_num/_DEFAULT_COLS
-
-    if line_offset is not None:
-      if line_align == "center":
-        if writing_mode in (styles.WritingModeType.rltb, styles.WritingModeType.lrtb):
-          extent_height = min(line_offset, 100 - line_offset) * 2
-          origin_y = line_offset - extent_height / 2
-        else:
-          extent_width = min(line_offset, 100 - line_offset) * 2
-          origin_x = line_offset - extent_height / 2
-        display_align = styles.DisplayAlignType.center
-      elif line_align == "start":
-        if writing_mode in (styles.WritingModeType.rltb, styles.WritingModeType.lrtb):
-          extent_height = 100 - line_offset
-          origin_y = line_offset
-        else:
-          extent_width = 100 - line_offset
-          origin_x = line_offset
-        display_align = styles.DisplayAlignType.before
+    if line_offset is not None and line_offset <= 100:
+      if line_align == "start":
+        block_origin, block_extent, anchor = line_offset, 100 - line_offset, "start"
       elif line_align == "end":
-        if writing_mode in (styles.WritingModeType.rltb, styles.WritingModeType.lrtb):
-          extent_height = line_offset
-          origin_y = 0
-        else:
-          extent_width = line_offset
-          origin_x = 0
-        display_align = styles.DisplayAlignType.after
+        block_origin, block_extent, anchor = 0, line_offset, "end"
       else:
-        LOGGER.warning("Bad line alignment setting value: %s", line_align)
-
+        block_extent = 2 * min(line_offset, 100 - line_offset)
+        block_origin, anchor = line_offset - block_extent / 2, "center"
     else:
-      LOGGER.warning("Bad line setting value: %s", cue_settings.get("line"))
-
-  # position
-
-  value = cue_settings.get("position")
-  if value is not None:
-    value = value.split(",")
-
-    if len(value) > 1 and value[1] in ("center", "line-left", "line-right"):
-      line_align = value[1]
-    else:
-      if text_align == styles.TextAlignType.start:
-        line_align = "line-right" if writing_mode == styles.WritingModeType.rltb else "line-left"
-      elif text_align == styles.TextAlignType.end:
-        line_align = "line-left" if writing_mode == styles.WritingModeType.rltb else "line-right"
+      line_num = parse_vtt_int(value[0]) if line_offset is None else None
+      if line_num is None:
+        LOGGER.warning("Bad line setting value: %s", cue_settings.get("line"))
       else:
-        line_align = "center"
-
-    position = parse_vtt_pct(value[0])
-    if position is not None:
-      if line_align == "center":
-        if writing_mode in (styles.WritingModeType.rltb, styles.WritingModeType.lrtb):
-          origin_x = position - extent_width / 2
+        # snap-to-lines: the line alignment does not apply; lines are counted from the block-start edge
+        # (top, left for vertical:lr, right for vertical:rl) or, when negative, from the opposite edge
+        if line_num >= 0:
+          offset = min(line_num, rows - 1) * 100 / rows
+          from_start, anchor = True, "start"
         else:
-          origin_y = position - extent_height / 2
-      elif line_align == "line-left":
-        if writing_mode in (styles.WritingModeType.rltb, styles.WritingModeType.lrtb):
-          origin_x = position
+          offset = (min(-line_num, rows) - 1) * 100 / rows
+          from_start, anchor = False, "end"
+        if writing_mode == styles.WritingModeType.tbrl:
+          from_start = not from_start
+          anchor = "end" if anchor == "start" else "start"
+        if from_start:
+          block_origin, block_extent = offset, 100 - offset
         else:
-          origin_y = position
-      elif line_align == "line-right":
-        if writing_mode in (styles.WritingModeType.rltb, styles.WritingModeType.lrtb):
-          origin_x = position - extent_width
-        else:
-          origin_y = position - extent_height
-      else:
-        LOGGER.warning("Bad position alignment setting value: %s", line_align)
+          block_origin, block_extent = 0, 100 - offset
 
-    else:
-      LOGGER.warning("Bad position setting value: %s", cue_settings.get("position"))
+  if anchor == "center":
+    display_align = styles.DisplayAlignType.center
+  elif (anchor == "start") != (writing_mode == styles.WritingModeType.tbrl):
+    display_align = styles.DisplayAlignType.before
+  else:
+    display_align = styles.DisplayAlignType.after
 
+  if vertical:
+    origin_x, extent_width, origin_y, extent_height = block_origin, block_extent, inline_origin, inline_extent
+  else:
+    origin_y, extent_height, origin_x, extent_width = block_origin, block_extent, inline_origin, inline_extent
 
   extent = styles.ExtentType(
     height=styles.LengthType(extent_height),
